@@ -340,7 +340,15 @@ func C10(r *eng.Run) {
 				checkFromInt(w, new(big.Int).Add(z, big.NewInt(1)), fmt.Sprintf("%v*10^%d+1", K, k))
 				checkFromInt(w, new(big.Int).Sub(z, big.NewInt(1)), fmt.Sprintf("%v*10^%d-1", K, k))
 				h := new(big.Int).Mul(big.NewInt(5), ref.Pow10(k-1))
-				checkFromInt(w, new(big.Int).Add(z, h), fmt.Sprintf("%v*10^%d+5*10^%d", K, k, k-1))
+				zh := new(big.Int).Add(z, h)
+				checkFromInt(w, zh, fmt.Sprintf("%v*10^%d+5*10^%d", K, k, k-1))
+				// tie broken by a single sticky digit at every chunk-relevant position below the guard digit
+				for _, j := range []int{0, 1, 17, 18, 19, 35, 36, 37, 53, 54, 55, k - 3, k - 2} {
+					if j >= 0 && j < k-1 {
+						checkFromInt(w, new(big.Int).Add(zh, ref.Pow10(j)), fmt.Sprintf("%v*10^%d+5*10^%d+10^%d", K, k, k-1, j))
+						checkFromInt(w, new(big.Int).Sub(zh, ref.Pow10(j)), fmt.Sprintf("%v*10^%d+5*10^%d-10^%d", K, k, k-1, j))
+					}
+				}
 			}
 		}
 	})
